@@ -133,7 +133,10 @@ class Verdict:
         return True
 
     def tool_error(self, msg):
-        self.tool_errors.append(msg)
+        import re
+        msg = re.sub(r'\x1b\[[0-9;]*m', '', msg)
+        if len(self.tool_errors) < 20:
+            self.tool_errors.append(msg[:1500])
 
     # ---- finish
     def finish(self):
